@@ -191,6 +191,8 @@ func checkC14(c *Ctx) {
 	checkSideMixing(c, "C14.R0.side-mixing", r)
 	checkLoopCarriedLocations(c, r.Pkg)
 	checkMirrorLoops(c, r)
+	// an iteration left early on a condition of one side has no mirror in the other direction
+	checkLoopTotality(c, "C14.R2.loop-totality", r.Pkg, "diff", 30, diffLoopExits)
 	checkBalancedPredicates(c, r)
 	checkArgumentRoles(c, "C14.R0.argument-roles", r.Pkg, "diff", 3)
 	checkTwinFunctions(c, r)
@@ -402,6 +404,7 @@ func checkDiffsTo(c *Ctx, r *goan.Rel) {
 		// flags: for … range <recv>.field { m[k] = FLAG } ; for … range <arg> { … m[k] = FLAG / |= FLAG }
 		flagOf := map[string]types.Object{} // "recv"/"arg" -> flag object
 		var finalRange *ast.RangeStmt
+		var arith []string
 		for _, st := range fd.Body.List {
 			rs, ok := st.(*ast.RangeStmt)
 			if !ok {
@@ -424,6 +427,11 @@ func checkDiffsTo(c *Ctx, r *goan.Rel) {
 				if _, ok := as.Lhs[0].(*ast.IndexExpr); !ok {
 					return true
 				}
+				// membership flags are set or or-ed: added up, an item listed twice on one side reaches the
+				// value that means "on both sides"
+				if as.Tok != token.ASSIGN && as.Tok != token.OR_ASSIGN {
+					arith = append(arith, as.Tok.String())
+				}
 				if id, ok := as.Rhs[0].(*ast.Ident); ok {
 					if o := info.Uses[id]; o != nil {
 						if old, seen := flagOf[who]; seen && old != o {
@@ -435,6 +443,8 @@ func checkDiffsTo(c *Ctx, r *goan.Rel) {
 				return true
 			})
 		}
+		c.Check(len(arith) == 0, rule, "diff."+recv+".DiffsTo › flags are set or or-ed", c.posOf(pk, fd.Pos()), "only = and |=",
+			fmt.Sprintf("a membership flag is combined with %v: an item repeated in one list accumulates to the value of another class (2+2 = on both sides … ), so it is filed as common in one direction and as deleted in the other", arith))
 		if flagOf["recv"] == nil || flagOf["arg"] == nil || flagOf["recv"] == flagOf["arg"] || flagOf["recv!"] != nil || flagOf["arg!"] != nil || finalRange == nil {
 			c.Bad(rule, "diff."+recv+".DiffsTo › membership flags", c.posOf(pk, fd.Pos()), "membership-flag idiom not recognised (one distinct flag per side, then a final range over the flag map)")
 			continue
